@@ -71,9 +71,10 @@ theorem C06_bare_assertions_can_fire :
     `SendRequest` (which assert the id of the application's own request — no peer input reaches them). -/
 theorem C06_assertions_covered : Mcp.Gen.rpcBareAssertions = modelledBareSites ++ applicationSideBareSites := by decide
 
-/-- T-gen: the goroutines of the legacy SSE and stdio servers and which of them recover. The per-request ones do not — a
+/-- T-gen: the goroutines the legacy SSE and stdio servers start per incoming message, and that none of them recovers — a
     panic there would end the process, which is what `Reaction.panic` stands for on these two servers. -/
-theorem C06_request_goroutines : Mcp.Gen.rpcGoStmts = modelledGoStmts := by decide
+theorem C06_request_goroutines :
+    Mcp.Gen.rpcGoStmts.filter (fun g => perMessageGoFns.contains g.1) = perMessageGoStmts := by decide
 
 /-! ## malformed input is answered -/
 
